@@ -307,6 +307,37 @@ def doPpFile (args : List String) : String :=
 def doSplit (hex : String) : String :=
   String.intercalate "," ((splitText (bytesOfHex hex)).map (fun c => if c.isEmpty then "-" else hexOfBytes c))
 
+/-! ### component-level models driven by operation sequences -/
+
+/-- `otext` : a stack machine over `POut` — `n` new text, `p,<text>,<path|->,<b>,<e>` push onto the top, `m` merge the top into the one below -/
+def doOText (ops : List String) : String :=
+  let r : Option (List POut) := ops.foldl (fun (st : Option (List POut)) op =>
+    match st with
+    | none => none
+    | some stack =>
+      match op.splitOn "," with
+      | ["n"] => some (({} : POut) :: stack)
+      | ["m"] => (match stack with | top :: below :: rest => some (below.merge top :: rest) | _ => none)
+      | ["p", t, path, b, e] =>
+        (match stack with
+         | top :: rest =>
+           let src : Option (Bytes × Range) := if path == "-" then none else some (bytesOfHex path, ⟨b.toNat?.getD 0, e.toNat?.getD 0⟩)
+           some (top.push (bytesOfHex t) src :: rest)
+         | [] => none)
+      | _ => none) (some [])
+  match r with
+  | some (top :: _) => s!"{if top.text.isEmpty then "-" else hexOfBytes top.text} [{originsStr top}]"
+  | _ => "bad-ops"
+
+def doStrFn (f hexs : String) : String :=
+  let s := bytesOfHex hexs
+  let r := match f with
+    | "trim_end" => trimEnd s
+    | "trim" => trim s
+    | "trim_start" => trimStart s
+    | _ => s
+  if r.isEmpty then "-" else hexOfBytes r
+
 def step (line : String) : String :=
   match line.trimAscii.toString.splitOn " " with
   | ["parse", start, cap, hex] => doParse false start cap hex
@@ -324,6 +355,9 @@ def step (line : String) : String :=
   | "ppfile" :: rest => doPpFile rest
   | ["split", hex] => doSplit hex
   | ["split"] => doSplit "-"
+  | "otext" :: ops => doOText ops
+  | ["strfn", f, hexs] => doStrFn f hexs
+  | ["strfn", f] => doStrFn f "-"
   | _ => "bad-op"
 
 partial def loop (h : IO.FS.Stream) (out : IO.FS.Stream) : IO Unit := do
